@@ -238,3 +238,54 @@ Example C11_constants_instance :
   end = true.
 Proof. vm_compute. reflexivity. Qed.
 Print Assumptions C11_constants_instance.
+
+(** ** the three finders agree (Search/AlgebraAllProofs.v): FindInAll over the tree (every typed search of the unfolding routed to
+    the path finder [FPaths id cfg]) = FindInPaths over the tree = FindInList over the strings of the data set, as sets, for the
+    whole [find] of a query-free search string in the guarded fragment.  [guarded] is the guard of the list finder (C10),
+    [tree_guard] that of the path finder (on what [Finder.find] hands to the star search: the Sid itself when the shortcut is
+    taken, else the unfolding), [all_guard] that of FindInAll (FindInAll always unfolds: the same conditions on the unfolding,
+    plus the routing).  When FindInAll and FindInPaths.find look at the same typed searches (in particular whenever the shortcut
+    is not taken) [all_guard] follows from [tree_guard] and the routing hypothesis, and the two return the same LIST. *)
+From Spil Require Import Search.UnfoldSpec Search.LastAgreeProofs Search.AlgebraDefs Search.AlgebraTreeDefs Search.AlgebraAllDefs
+  Search.AlgebraAllProofs.
+
+Theorem C11_three_finders_agree :
+  forall (c : Conf) (Ld : Loaded),
+  load c = Some Ld ->
+  wf_loadedb Ld = true ->
+  unfold_conf_okb Ld = true ->
+  paths_unambiguousb Ld = true ->
+  forall (cfg : string) (E : list sid) (F : fs),
+  dataset_ok Ld cfg E F ->
+  forall (Rt : Routing) (id s : string) (l l' l'' : list string),
+  guarded Ld s ->
+  tree_guard Ld cfg E s ->
+  all_guard Ld Rt id cfg E s ->
+  find_all Ld Rt F s = Ok l ->
+  ffind Ld F (FPaths id cfg) s = Ok l' ->
+  find_list Ld (map s_string E) s = Ok l'' ->
+  forall e : string, (In e l <-> In e l') /\ (In e l' <-> In e l'').
+Proof. exact find_all_eq_find_paths_eq_find_list. Qed.
+Print Assumptions C11_three_finders_agree.
+
+(* under the hypotheses of C10_find_all_denotes (the guard of the tree finder, the routing hypothesis, both look at the same
+   typed searches): FindInAll and FindInPaths return the same list, duplicate-free, with the elements of the list finder's *)
+Theorem C11_three_finders_agree_same :
+  forall (c : Conf) (Ld : Loaded),
+  load c = Some Ld ->
+  wf_loadedb Ld = true ->
+  unfold_conf_okb Ld = true ->
+  paths_unambiguousb Ld = true ->
+  forall (cfg : string) (E : list sid) (F : fs),
+  dataset_ok Ld cfg E F ->
+  forall (Rt : Routing) (id s : string) (l l' l'' : list string),
+  guarded Ld s ->
+  tree_guard Ld cfg E s ->
+  (forall qs : list sid, unfold_search Ld s false false = Ok qs -> routed_to Rt (FPaths id cfg) qs) ->
+  find_searches Ld s = unfold_search Ld s false false ->
+  find_all Ld Rt F s = Ok l ->
+  ffind Ld F (FPaths id cfg) s = Ok l' ->
+  find_list Ld (map s_string E) s = Ok l'' ->
+  l = l' /\ NoDup l /\ NoDup l'' /\ (forall e : string, In e l <-> In e l'').
+Proof. exact find_all_eq_find_paths_eq_find_list_same. Qed.
+Print Assumptions C11_three_finders_agree_same.
